@@ -17,7 +17,7 @@ POST_HOC = {'C02-a': 'C02.FRAME reformulated (first version fired for the wrong 
             'C05-b': 'C05.SCRATCH (missed by every check until round 7)', 'C06-b': 'C07/C06.SATSIGN extended to signed packs and made flow-sensitive',
             'C07-b': 'C07.ACC16: the rule existed (C06.ACC16 caught it blind); it is now reported under C07 too',
             'C26-b': 'C26.SOURCE presence predicates (first run ended analysis-broken: the selector was looked up by the flag name)',
-            'C27-b': 'C27.PERPIC', 'C09-c': 'C09.BARRIERRESET', 'C19-b': 'C19.COUNTER rewind guard', 'C20-d': 'C20.APPLY', 'C22-d': 'C22.REKEY span clause', 'C24-d': 'C24.TASKHDR / C04.MSGHDR', 'C14-d': 'C14.3-BOUND copy lengths prepared in locals (worst-case evaluation)', 'C16-d': 'C16.DCTORSAFE element paths', 'C12-d': 'C12.TWIN', 'C19-c': 'C19.COUNTER extra conjunct (first run ended analysis-broken: the raise was recognised only in its literal form)', 'C26-c': 'C26.FLOW before-handover clause', 'C10-e': 'C10.REFNULL extended to the primary reference pointer (NULL when the header names none) and to conditional-expression guards'}
+            'C27-b': 'C27.PERPIC', 'C09-c': 'C09.BARRIERRESET', 'C19-b': 'C19.COUNTER rewind guard', 'C20-d': 'C20.APPLY', 'C22-d': 'C22.REKEY span clause', 'C24-d': 'C24.TASKHDR / C04.MSGHDR', 'C14-d': 'C14.3-BOUND copy lengths prepared in locals (worst-case evaluation)', 'C16-d': 'C16.DCTORSAFE element paths', 'C12-d': 'C12.TWIN', 'C19-c': 'C19.COUNTER extra conjunct (first run ended analysis-broken: the raise was recognised only in its literal form)', 'C26-c': 'C26.FLOW before-handover clause', 'C10-e': 'C10.REFNULL extended to the primary reference pointer (NULL when the header names none) and to conditional-expression guards', 'C02-d': 'C02.BYTEWIDTH'}
 rows = []
 for f in sorted(glob.glob(os.path.join(HERE, 'seeded', '*', 'meta.json'))):
     m = json.load(open(f)); sid = os.path.basename(os.path.dirname(f))
